@@ -205,6 +205,21 @@ def run(ctx):
             if abs(lc[0]) > 1e-3:
                 viol("CAMB/large-scale", f"CAMB ln T at its largest scale is {lc[0]:.4g}, expected 0")
             ntab += 1
+            # ... for every cosmology: closed and wCDM models have tables that are not monotone on their first rows
+            from astropy.cosmology import LambdaCDM, FlatwCDM
+            for cn_, cos_ in (("closed LCDM (Om0=0.35, Ode0=0.8)", LambdaCDM(H0=68.0, Om0=0.35, Ode0=0.8, Ob0=0.048, Tcmb0=2.725)),
+                              ("wCDM (w0=-0.7)", FlatwCDM(H0=68.0, Om0=0.3, w0=-0.7, Ob0=0.048, Tcmb0=2.725)),
+                              ("open LCDM (Om0=0.3, Ode0=0.5)", LambdaCDM(H0=68.0, Om0=0.3, Ode0=0.5, Ob0=0.048, Tcmb0=2.725))):
+                for grid_ in (np.linspace(-12, 2, 30), np.linspace(-6, 2, 20)):
+                    try:
+                        lcc = tm.CAMB(cos_).lnt(grid_.copy())
+                    except Exception as e_:
+                        out["assumptions"].append(f"CAMB with {cn_} not exercised: {type(e_).__name__}")
+                        break
+                    ntab += 1
+                    # the largest scale of the *model* is its first tabulated row (or the requested minimum when that lies below the table)
+                    if grid_[0] < -10 and abs(lcc[0]) > 1e-3:
+                        viol("CAMB/large-scale", f"CAMB ln T at its largest scale is {lcc[0]:.4g} for {cn_}, expected 0 (T = 1)", {"cosmology": cn_, "lnk_min": float(grid_[0])})
         except Exception as e:
             out["assumptions"].append(f"CAMB not exercised: {e}")
         # ---- transfer_function = T x constant, constant independent of the requested k range (normalisation accuracy)
